@@ -79,8 +79,11 @@ def check(ctx):
            else f"trigger is {ir.show(COND, maxdepth=5)}")
     COUNTS = COND[2][2][0][1] if okc else None
     if COUNTS is not None:
-        cnt = COUNTS[3] if COUNTS[0] == "phi" else COUNTS
-        unit = COUNTS[2] if COUNTS[0] == "phi" else None
+        cnt, unit = COUNTS, None
+        if COUNTS[0] == "phi":  # the unit level is the branch without grouping keys, whichever polarity the test is written / canonicalised in
+            c_ = COUNTS[1]
+            neg = c_[0] == "un" and c_[1] == "not"
+            unit, cnt = (COUNTS[2], COUNTS[3]) if neg else (COUNTS[3], COUNTS[2])
         oku = unit == ("dict", ((("const", "n"), ncal),))
         ctx.ob("C15.R1.counts-unit", f"{f.qualname}|unit level: one group with all calibration units", oku, f.where(),
                "with no aggregate the single count is the number of calibration units" if oku else f"unit-level count is {ir.show(unit, maxdepth=3) if unit else None}")
